@@ -415,6 +415,10 @@ var fixedPrograms = []string{
 	`input | inputs`, `limit(2; inputs)`, `empty, error("x")`, `. as {a: $x, $y, "b": [$z], ("c" + "d"): $w} | 1`, `. as [$a] ?// {a: $a} ?// $a | $a`,
 	`# comment\n1 # c2\n| 2`, "1\n|\n2", `"a" "b"`, `1 == 2 == 3`, `.a = .b = 1`, `a::b(1)`, `$a::b`, `include ""; 1`,
 	`"\(1)\(2)"`, `"\("\("x")")"`, `@text "\(1)"`, `.["a"]`, `.[1,2]`, `."a\(1)"`, `.a."b\(1)"[0]?`, `break $x`, `label $x | break $x | 1`,
+	// seeded changes S-C11-1 (bare-term programs lose their parenthesis) and S-C11-2 (slurp call inside an `as` body)
+	`try error("x")`, `try (1, error("x"), 2)`, `label $out | 1, break $out, 2`, `try error("x") catch .`, `-1`, `.a?`, `if . then 1 end`,
+	`5 as $x | $x + 1 | repl`, `1 as $x | 2 as $y | [$x, $y] | length | repl`, `5 as $x | $x, 7 | slurp("v")`, `"abc" as $x | $x | help`,
+	`1 as $x | 2 | 3 as $y | 4 | 5 | repl({})`, `. as [$a] ?// $a | $a | .b | slurp("w")`,
 	`try error catch . | 1`, `try error catch (. | 1)`, `1 as $x | 2, 3`, `(1 as $x | 2), 3`, `1 // 2 | 3`, `.a |= (1 | 2)`, `. as $x | [$x | 1]`,
 }
 
